@@ -122,6 +122,22 @@ def run(shard, ctx):
         rng = ctx.rng("rt")
         values = MM.midi_vocabulary(whole_ticks_only=True)
         with Scratch() as path:
+            # the smallest compositions: no track at all; tracks without bars; tracks of empty bars
+            for label, spec in (("no tracks", {"tracks": []}),
+                                ("one track without bars", {"tracks": [{"name": "T0", "instrument": None, "bars": []}]}),
+                                ("two tracks of one empty bar", {"tracks": [{"name": "T%d" % k, "instrument": None, "bars": [
+                                    {"key": "C", "meter": [4, 4], "entries": []}]} for k in range(2)]})):
+                w = {"composition": label}
+                st, r = ctx.call(MO.write_Composition, path, MM.build_composition(spec), 120)
+                if st != "ok" or r is not True:
+                    ctx.check("roundtrip: the writer returns normally", False, w, True, repr(r), mechanism="write-raise")
+                    continue
+                rb = read_back(ctx, path, w)
+                if rb is not None:
+                    ctx.check("roundtrip: the same number of tracks comes back", len(rb[0].tracks) == len(spec["tracks"]), w,
+                              len(spec["tracks"]), len(rb[0].tracks), mechanism="track-count")
+                    ctx.check("tempo: the tempo read back equals the tempo written", rb[1] == 120 or not spec["tracks"], w, 120, rb[1], mechanism="tempo")
+                ctx.case(("tiny", label))
             for i in range(shard["n"]):
                 one = rng.random() < 0.8
                 c = MM.random_composition(rng, values, one_key_meter=one, instrument="random", velocity=(1, 127),
